@@ -113,6 +113,15 @@ impl<'a, 'b> G<'a, 'b> {
                 let e = self.expr(2);
                 S::Expr(assign(id(v), e))
             }
+            4 if !self.fns.is_empty() => {
+                // a definition-free statement that stores a new function literal in an existing function name
+                let f = self.fns[self.c.below(self.fns.len())];
+                let saved = self.fns.clone();
+                self.fns = if f == "g" { saved.iter().copied().filter(|x| *x == "f").collect() } else { vec![] };
+                let body = self.fn_body("p");
+                self.fns = saved;
+                S::Expr(assign(id(f), E::Fn(vec!["p".into()], body)))
+            }
             3 => {
                 let f = FNS[self.c.below(FNS.len())];
                 // no recursion: f calls nothing, g may call f
